@@ -21,6 +21,29 @@ FAIL_EXC = {"BatchFailure": BatchFailure, "StopIteration": StopIteration, "KeyEr
             "ZeroDivisionError": ZeroDivisionError, "OSError": OSError}
 
 
+OWN_EXC = ["AgentNotFoundError", "DuplicateAgentError", "ComponentNotFoundError", "SystemNotFoundError", "ModelCompleteError"]
+
+
+def raise_injected(model, what):
+    """Raise the scripted failure; the package's own exceptions are provoked through the real API."""
+    name = (CONFIG.get("fail") or {}).get("exc", "BatchFailure")
+    if name == "AgentNotFoundError":
+        model.environment.remove_agent("nobody")
+    elif name == "DuplicateAgentError":
+        from ECAgent.Core import Agent
+        model.environment.add_agent(Agent("twin", model))
+        model.environment.add_agent(Agent("twin", model))
+    elif name == "ComponentNotFoundError":
+        from ECAgent.Core import Agent, Component
+        Agent("lonely", model).remove_component(Component)
+    elif name == "SystemNotFoundError":
+        model.systems.remove_system("no-such-system")
+    elif name == "ModelCompleteError":
+        from ECAgent.Core import ModelCompleteError
+        raise ModelCompleteError()
+    raise FAIL_EXC.get(name, BatchFailure)(what)
+
+
 def fail_exc():
     return FAIL_EXC.get((CONFIG.get("fail") or {}).get("exc", "BatchFailure"), BatchFailure)
 
@@ -71,7 +94,7 @@ class Work(System):
         m.entry["ticks"].append(["work", t, m.is_running()])
         f = CONFIG.get("fail")
         if f and f.get("where") == "system" and m.fail_me and t == min(f.get("t", 0), max(0, m.stop_at - 1)):
-            raise fail_exc()(f"injected failure in system at t={t} of {m.sig}")
+            raise_injected(m, f"injected failure in system at t={t} of {m.sig}")
         us = CONFIG.get("sleep_us")
         if us:
             time.sleep(((sum(ord(c) for c in m.sig) * 7919 + t * 104729) % us) / 1e6)
@@ -109,7 +132,9 @@ class BatchModel(Model):
             elif "sig" in f:
                 self.fail_me = self.sig == f["sig"]
             if self.fail_me and f.get("where") == "ctor":
-                raise fail_exc()(f"injected failure constructing {self.sig}")
+                raise_injected(self, f"injected failure constructing {self.sig}")
+        if CONFIG.get("shadow_timestep") is not None:
+            self.timestep = CONFIG["shadow_timestep"]      # a user attribute that happens to be called `timestep` (e.g. a dt)
         self.systems.add_system(Stopper(self))
         self.systems.add_system(Work(self))
         for name, freq in CONFIG.get("collectors_defined", [["col0", 1], ["col1", 2], ["col2", 1]]):
